@@ -1,6 +1,7 @@
 package rules
 
 import (
+	"go/types"
 	"fmt"
 	"strings"
 
@@ -168,7 +169,7 @@ func runC05(c *core.Ctx) {
 // elementPaths: iteration paths of goroutine g (from its loop head), split into element / closed paths.
 func elementPaths(g *Goroutine, h *ssa.BasicBlock) (elem []*iterFacts, other []*iterFacts) {
 	for _, p := range g.An.Segs[h] {
-		f := factsOf(p)
+		f := factsAt(g.An, h, p)
 		if f.recv != nil {
 			elem = append(elem, f)
 		} else {
@@ -176,6 +177,130 @@ func elementPaths(g *Goroutine, h *ssa.BasicBlock) (elem []*iterFacts, other []*
 		}
 	}
 	return
+}
+
+// factsAt: factsOf for a segment that starts at loop head h, aware of the rotated receive form.
+func factsAt(an *ir.Analysis, h *ssa.BasicBlock, p *ir.Path) *iterFacts {
+	f := factsOf(p)
+	if p.From != h || h == nil {
+		return f
+	}
+	rot := rotatedReceive(an, h)
+	if rot == nil {
+		return f
+	}
+	// `for x, ok := <-in; ok; x, ok = <-in`: the element of this pass was received on the way to the head; a
+	// receive at the end of the pass belongs to the next one
+	switch polarity(p, rot.okSym) {
+	case 1:
+		f.recv, f.elem, f.closed = rot.recv, rot.xSym, false
+	case -1:
+		f.recv, f.elem, f.closed = nil, nil, true
+	}
+	return f
+}
+
+// rotatedReceive recognises the loop form in which the comma-ok receive from the input sits in the init and post
+// statements: the head carries a pair of phis (x, ok) and every arrival assigns them the two results of one
+// comma-ok receive from the stage's input made on that arriving path.
+type rotRecv struct {
+	x, ok       *ssa.Phi
+	xSym, okSym *ir.Term
+	recv        *ir.Step
+}
+
+func rotatedReceive(an *ir.Analysis, h *ssa.BasicBlock) *rotRecv {
+	if an == nil || h == nil || an.Start[h] == nil {
+		return nil
+	}
+	var phis []*ssa.Phi
+	for _, in := range h.Instrs {
+		phi, ok := in.(*ssa.Phi)
+		if !ok {
+			break
+		}
+		phis = append(phis, phi)
+	}
+	var arrivals []*ir.Path
+	for _, ps := range an.Segs {
+		for _, p := range ps {
+			if p.To == h {
+				arrivals = append(arrivals, p)
+			}
+		}
+	}
+	if len(arrivals) == 0 {
+		return nil
+	}
+	for _, okPhi := range phis {
+		if b, isB := okPhi.Type().Underlying().(*types.Basic); !isB || b.Kind() != types.Bool {
+			continue
+		}
+		for _, xPhi := range phis {
+			if xPhi == okPhi {
+				continue
+			}
+			good := true
+			var first *ir.Step
+			for _, p := range arrivals {
+				okV, xV := p.PhiOut[okPhi], p.PhiOut[xPhi]
+				if okV == nil || xV == nil || okV.Op != "extract" || okV.Aux != "1" || xV.Op != "extract" || xV.Aux != "0" || !ir.Same(okV.Args[0], xV.Args[0]) {
+					good = false
+					break
+				}
+				var rs *ir.Step
+				for i := range p.Steps {
+					st := &p.Steps[i]
+					if st.Kind == ir.KRecv && st.CommaOk && isInputChan(st.A[0]) && ir.Same(st.R, okV.Args[0]) {
+						rs = st
+					}
+				}
+				if rs == nil {
+					good = false
+					break
+				}
+				if first == nil {
+					first = rs
+				}
+			}
+			if good {
+				return &rotRecv{x: xPhi, ok: okPhi, xSym: an.Start[h].Reg(xPhi), okSym: an.Start[h].Reg(okPhi), recv: first}
+			}
+		}
+	}
+	// the value may be discarded (`for _, ok := <-in; ok; _, ok = <-in`): only the ok flag is loop-carried
+	for _, okPhi := range phis {
+		if b, isB := okPhi.Type().Underlying().(*types.Basic); !isB || b.Kind() != types.Bool {
+			continue
+		}
+		good := true
+		var first *ir.Step
+		for _, p := range arrivals {
+			okV := p.PhiOut[okPhi]
+			if okV == nil || okV.Op != "extract" || okV.Aux != "1" {
+				good = false
+				break
+			}
+			var rs *ir.Step
+			for i := range p.Steps {
+				st := &p.Steps[i]
+				if st.Kind == ir.KRecv && st.CommaOk && isInputChan(st.A[0]) && ir.Same(st.R, okV.Args[0]) {
+					rs = st
+				}
+			}
+			if rs == nil {
+				good = false
+				break
+			}
+			if first == nil {
+				first = rs
+			}
+		}
+		if good {
+			return &rotRecv{ok: okPhi, okSym: an.Start[h].Reg(okPhi), recv: first, xSym: &ir.Term{Op: "extract", Aux: "0", Args: []*ir.Term{{Op: "recv", Aux: "discarded"}}}}
+		}
+	}
+	return nil
 }
 
 func outChan(s *Stage, i int) *ir.Term {
@@ -711,7 +836,7 @@ func foldShape(c *core.Ctx, rule, name string, g *Goroutine, h *ssa.BasicBlock, 
 	// iteration: acc' = Combine(acc, x) exactly once per element; unchanged otherwise
 	q := CellQuantity(g.An, acc)
 	for _, p := range g.An.Segs[h] {
-		f := factsOf(p)
+		f := factsAt(g.An, h, p)
 		startV := q.StartSym(p)
 		endV := q.ValueAt(p, len(p.Steps))
 		nComb := 0
@@ -904,7 +1029,7 @@ func c05ToSeq(c *core.Ctx, s *Stage) {
 	sym := an.Start[h].Reg(acc)
 	n := 0
 	for _, p := range an.Segs[h] {
-		f := factsOf(p)
+		f := factsAt(an, h, p)
 		if f.recv != nil {
 			n++
 			v := p.PhiOut[acc]
